@@ -186,6 +186,10 @@ def queries(tier):
     # T7: higher-order reference
     qs.append(_q("hist.T7.aa", "T7", [{"variants": A}, {"variants": A}]))
     qs.append(_q("hist.T7.ab", "T7", [{"variants": A}, {"variants": B}]))
+    # the same program living in __main__ (a script): names are resolved through the start module / start globals
+    MA, MB = {"__main__": "a"}, {"__main__": "b"}
+    qs.append(_q("hist.T1main.int.aa", "T1main", [{"variants": MA}, {"variants": MA}], {"G": "int"}))
+    qs.append(_q("hist.T1main.str.ab", "T1main", [{"variants": MA}, {"variants": MB, "style": "eval"}], {"G": "str"}))
     # T10: variable read through a module alias, multi-line keep call with run-time argument, lambda, nested def, dds_function
     F10 = {"L": [1, 1], "Q": [2, 2], "R": [3, 3]}
     for var in (("Q",) if tier == "quick" else ("L", "Q", "R")):
